@@ -3,6 +3,7 @@
 package main
 
 import (
+	"crypto/sha1"
 	"encoding/json"
 	"flag"
 	"fmt"
@@ -72,6 +73,7 @@ func cmdRun(args []string) int {
 	verbose := fs.Bool("v", false, "verbose")
 	timeout := fs.Int("timeout", 60000, "per-query timeout ms")
 	maxSteps := fs.Int("maxsteps", 3000000, "step budget per path")
+	noPOR := fs.Bool("nopor", false, "disable sleep-set reduction")
 	fs.Parse(args)
 	t0 := time.Now()
 	p, err := loadProgram(parseParams(*params))
@@ -90,6 +92,8 @@ func cmdRun(args []string) int {
 	e.Timeout = *timeout
 	e.Opt.Verbose = *verbose
 	e.Opt.MaxSteps = *maxSteps
+	e.Opt.NoPOR = *noPOR
+	e.Opt.Threads = true
 	t1 := time.Now()
 	e.Run()
 	st := e.Stats
@@ -102,6 +106,15 @@ func cmdRun(args []string) int {
 	sort.Strings(labels)
 	fmt.Println("assert labels:", labels)
 	fmt.Println("covers:", st.Covers)
+	if len(st.Outcomes) > 0 {
+		var keys []string
+		for k := range st.Outcomes {
+			keys = append(keys, k)
+		}
+		sort.Strings(keys)
+		h := sha1.Sum([]byte(strings.Join(keys, "\n")))
+		fmt.Printf("distinct outcomes: %d sha1=%x sleep-blocked=%d\n", len(keys), h[:6], st.SleepBlocked)
+	}
 	for _, s := range st.Samples {
 		b, _ := json.Marshal(s)
 		fmt.Println("sample:", string(b))
